@@ -18,6 +18,9 @@ RULES = {
              "that very guard; the re-acquiring commit is guarded by hold == false",
     "C05.3": "writer-side mutual exclusion is by type: the active block and the write offset of a Writer are reachable only through Mutex guards (fields of type Mutex<_>), and the "
              "batch planning of one topic holds both guards from planning to publish (shared with C04.3a)",
+    "C05.4": "a consuming read_next moves the cursor only past an entry it delivers (= C01.1's read_next clause): every checkpoint-guarded commit of the cursor offset is derived from "
+             "the size consumed by the read that precedes it and is followed by the return of that entry. A commit that skips what could not be read loses entries that a concurrent "
+             "batch append has planned and published but not yet written",
 }
 
 
@@ -274,6 +277,8 @@ def run(ctx):
     facts = common.mir(ctx, "walrus_rust")
     check_rmw(ctx, facts)
     check_hold(ctx, facts)
+    from .c01 import check_read_next_commit
+    check_read_next_commit(ctx, facts, rid="C05.4")
     check_writer_types(ctx, facts)
     ctx.assume("schedules are not enumerated: the check decides the absence of the atomicity-violation shapes that make duplicate delivery possible; ordering between producers, "
                "the stale pre-lock writer snapshot in the batch path and fairness are NOT decided")
